@@ -194,20 +194,223 @@ def fmt_arr(dims, elems):
     return ' '.join([str(len(dims))] + [str(d) for d in dims] + [str(len(elems))] + ['%x' % v for v in elems])
 
 
-def gen_sequence(rng, ty, nops, stats, malformed=False):
+# ------------------------------------------------------------------ large blocks
+import array, hashlib
+BIG_TYPES = {'float64': 'd', 'float32': 'f', 'int32': 'i', 'int64': 'q'}
+
+
+def strides_of(dims):
+    st, m = [0] * len(dims), 1
+    for i in range(len(dims) - 1, -1, -1):
+        st[i] = m
+        m *= dims[i]
+    return st
+
+
+def big_gather(flat, dims, start, count, step):
+    """Row-major elements of the view (start, count, step) of the row-major array [flat] of extent [dims];
+    the last axis is handled by C-speed slices."""
+    out = array.array(flat.typecode)
+    st = strides_of(dims)
+    last = len(dims) - 1
+
+    def rec(ax, off):
+        if ax == last:
+            if count[ax] > 0:
+                s0 = off + start[ax]
+                out.extend(flat[s0:s0 + (count[ax] - 1) * step[ax] + 1:step[ax]])
+            return
+        for k in range(count[ax]):
+            rec(ax + 1, off + (start[ax] + k * step[ax]) * st[ax])
+    rec(0, 0)
+    return out
+
+
+def big_scatter(ds, dims, loc, bshape, src):
+    """ds[loc : loc + bshape] = src (row-major), in place."""
+    st = strides_of(dims)
+    last = len(dims) - 1
+    pos = [0]
+
+    def rec(ax, off):
+        if ax == last:
+            o = off + loc[ax]
+            ds[o:o + bshape[ax]] = src[pos[0]:pos[0] + bshape[ax]]
+            pos[0] += bshape[ax]
+            return
+        for k in range(bshape[ax]):
+            rec(ax + 1, off + (loc[ax] + k) * st[ax])
+    rec(0, 0)
+
+
+def big_digest(a):
+    return 'H' + hashlib.sha256(a.tobytes()).hexdigest()[:16]
+
+
+def big_fmt(dims, a):
+    return ' '.join([str(len(dims))] + [str(d) for d in dims] + [str(len(a)), big_digest(a)])
+
+
+def big_dump(path, dims, a):
+    t = 'd:/' + path + ' ' + big_fmt(dims, a)
+    if dims and 0 < dims[0] <= 64:
+        row = len(a) // dims[0]
+        t += ''.join(' R' + hashlib.sha256(a[r * row:(r + 1) * row].tobytes()).hexdigest()[:8] for r in range(dims[0]))
+    return t
+
+
+class BigView:
+    def __init__(self, tc, base, seed, sl):
+        self.base, self.seed, self.sl = base, seed, sl
+        flat = array.array(tc, range(seed, seed + prod(base)))
+        if sl is None:
+            self.dims, self.elems = list(base), flat
+        else:
+            self.dims = list(sl[1])
+            self.elems = big_gather(flat, base, *sl)
+
+    def tokens(self):
+        t = [len(self.base)] + self.base + ['%x' % self.seed]
+        t += [0] if self.sl is None else [1] + list(self.sl[0]) + list(self.sl[1]) + list(self.sl[2])
+        return [str(x) for x in t]
+
+
+def gen_big_view(rng, tc, shape, kind):
+    r = len(shape)
+    base, start, step = list(shape), [0] * r, [1] * r
+    if kind == 'contiguous':
+        return BigView(tc, base, rng.randint(0, 900), None)
+    ax = r - 1 if kind.endswith('last') else 0
+    if kind.startswith('gapped'):
+        gap = rng.randint(1, 3)
+        start[ax] = rng.randint(0, gap)
+        base[ax] = shape[ax] + gap
+    else:
+        step[ax] = 2
+        start[ax] = rng.randint(0, 1)
+        base[ax] = start[ax] + (shape[ax] - 1) * 2 + 1 + rng.randint(0, 1)
+    return BigView(tc, base, rng.randint(0, 900), (start, list(shape), step))
+
+
+def gen_big_case(rng, ty, n0, stats, stratum=None):
+    """One large-block case: (case line, expected result strings, expected dump lines, description).
+    stratum (stratified sampling of {below, above the power of two} x {contiguous, strided source}):
+    None = draw both at random, 'above-strided', 'below-strided', 'above-contiguous'."""
+    tc = BIG_TYPES[ty]
+    r = rng.choice([1, 2, 3])
+    n = n0 + rng.choice([-rng.randint(1, 40), rng.randint(1, 40), rng.randint(41, 3000), rng.randint(1, 3000)])
+    if stratum and stratum.startswith('above'):
+        n = n0 + rng.choice([rng.randint(1, 40), rng.randint(41, 3000)])
+    elif stratum:
+        n = n0 - rng.randint(1, 3000)
+    if r == 1:
+        shape = [n]
+    elif r == 2:
+        f = rng.choice([3, 5, 7, 9, 11, 13])
+        shape = [f, -(-n // f)]
+    else:
+        f, g = rng.choice([3, 5, 7, 9, 11]), rng.choice([2, 3])
+        shape = [f, g, -(-n // (f * g))]
+    kind = rng.choice(['contiguous', 'gapped-last', 'gapped-first', 'stepped-last', 'stepped-first', 'gapped-last', 'stepped-first'])
+    if stratum and stratum.endswith('strided'):
+        kind = rng.choice(['gapped-last', 'stepped-last', 'stepped-first'] if r > 1 else ['stepped-last', 'stepped-first'])
+    elif stratum:
+        kind = rng.choice(['contiguous', 'gapped-first'])
+    if stratum and stratum.startswith('below') and r > 1:
+        shape[-1] = max(1, n // prod(shape[:-1]))              # round down: stay below the power of two
+    v = gen_big_view(rng, tc, shape, kind)
+    stats['kinds'][kind] = stats['kinds'].get(kind, 0) + 1
+    stats['element_counts'].append(prod(shape))
+    toks, expect, store = ['BIG', ty], [], {}
+    # WriteSlice of the block into a larger zero dataset, then whole and selected loads
+    dsd = [shape[0] + rng.randint(1, 3)] + [d + rng.randint(0, 1) for d in shape[1:]]
+    loc = [rng.randint(0, a - b) for a, b in zip(dsd, shape)]
+    ds = array.array(tc, bytes(prod(dsd) * array.array(tc).itemsize))
+    big_scatter(ds, dsd, loc, shape, v.elems)
+    store['big'] = (dsd, ds)
+    toks += ['C', '@big', str(len(dsd))] + [str(d) for d in dsd] + ['0']
+    toks += ['S', '@big'] + v.tokens() + [str(len(loc))] + [str(x) for x in loc]
+    toks += ['L', '@big']
+    expect += ['ok', 'ok', 'ok ' + big_fmt(dsd, ds)]
+    sel = []
+    for i, d in enumerate(dsd):
+        if i == len(dsd) - 1:
+            sel.append([rng.randint(0, 50), d - rng.randint(0, 50) + rng.choice([0, 0, 200]), rng.choice([1, 2, 3, 997])])
+        else:
+            sel.append(None if rng.random() < 0.4 else [rng.randint(0, 2), rng.randint(d - 1, d + 2), rng.randint(1, 2)])
+    toks += ['LS', '@big', str(len(sel))]
+    st_, cn_, sp_ = [], [], []
+    for s, d in zip(sel, dsd):
+        toks += ['N'] if s is None else ['T'] + [str(x) for x in s]
+        rg = range(d) if s is None else range(s[0], min(s[1], d), s[2])
+        st_.append(rg.start if len(rg) else 0)
+        cn_.append(len(rg))
+        sp_.append(rg.step)
+    got = big_gather(ds, dsd, st_, cn_, sp_) if all(cn_) else array.array(tc)
+    expect.append('ok ' + big_fmt(cn_, got))
+    # whole Write of the same view into a new dataset (not for the very largest: keeps the file small)
+    if prod(shape) < 3000000 or rng.random() < 0.3:
+        toks += ['W', '@g/w'] + v.tokens() + ['L', '@g/w']
+        store['g/w'] = (v.dims, v.elems)
+        expect += ['ok', 'ok ' + big_fmt(v.dims, v.elems)]
+    dump = {big_dump(pth, d, a) for pth, (d, a) in store.items()}
+    if 'g/w' in store:
+        dump.add('g:/g')
+    return ' '.join(toks), expect, dump, {'type': ty, 'shape': shape, 'view': kind, 'dataset': dsd, 'loc': loc, 'selection': sel}
+
+
+class Pool:
+    """Argument objects of one sequence that are passed to SEVERAL calls (the Go harness keeps one
+    slice / array object per id: "SHARE id" in the case line).  The specification always uses the
+    values the object was created with: a call must not modify its arguments."""
+    def __init__(self):
+        self.n = 0
+        self.objs = {'shape': [], 'loc': [], 'entry': [], 'sel': [], 'view': []}
+
+    def add(self, kind, obj):
+        self.n += 1
+        self.objs[kind].append((self.n, obj))
+        return self.n
+
+
+def share(i):
+    return ['SHARE', str(i)] if i else []
+
+
+def gen_sequence(rng, ty, nops, stats, malformed=False, reuse=False):
     """Returns (case line, expectations) — expectations[i] is the string the oracle
-    wants for op i, or None when the property says nothing about that op."""
+    wants for op i, or None when the property says nothing about that op.
+    reuse: a sequence that starts with several datasets of one rank and different extents and
+    then mostly re-uses the same selection / shape / loc / source-array objects across them."""
     spec = Spec()
     toks = ['SEQ', ty]
     expect = []
     descr = []
+    pool = Pool()
+    p_re = 0.7 if reuse else 0.25
+    if reuse:
+        r0 = rng.choice([1, 2, 2, 3])
+        seen = set()
+        for name in rng.sample(['a', 'b', 'g/a', 'g/b'], rng.randint(2, 3)):
+            shape = [rng.randint(1, 6) for _ in range(r0)]
+            while tuple(shape) in seen:
+                shape[rng.randrange(r0)] += 1
+            seen.add(tuple(shape))
+            v = gen_view(rng, ty, shape, stats['views'])
+            toks += ['W', '@' + name] + v.tokens()
+            spec.exists = True
+            spec.add(norm(name), v.dims, v.elems)
+            expect.append('ok')
+            descr.append('write')
     for _ in range(nops):
         existing = list(spec.ds)
         r = rng.random()
+        if reuse:
+            r = rng.choice([0.1, 0.3, 0.45, 0.5, 0.6, 0.7, 0.75, 0.8, 0.85]) if rng.random() < 0.9 else r
         odd = malformed and rng.random() < 0.35
         name = rng.choice(ODD_NAMES if odd else NAMES)
         p = norm(name)
-        if existing and rng.random() < 0.6 and not odd:
+        if existing and rng.random() < (0.9 if reuse else 0.6) and not odd:
             p = rng.choice(existing)
             name = rng.choice(['', '/']) + '/'.join(p)
         if r < 0.16:                                            # ---- Create
@@ -221,7 +424,15 @@ def gen_sequence(rng, ty, nops, stats, malformed=False):
                 shape = list(shape)
                 shape[rng.randrange(len(shape))] = 0            # zero extent
                 odd = True
-            toks += ['C', '@' + name, str(len(shape))] + [str(d) for d in shape] + [str(compress)]
+            sid = 0
+            if not odd and not compress and shape:
+                if pool.objs['shape'] and rng.random() < p_re:
+                    sid, shape = rng.choice(pool.objs['shape'])
+                    shape = list(shape)
+                    stats['shared-arg-reuses'] += 1
+                elif rng.random() < 0.5:
+                    sid = pool.add('shape', list(shape))
+            toks += ['C', '@' + name] + share(sid) + [str(len(shape))] + [str(d) for d in shape] + [str(compress)]
             descr.append('create')
             if odd or compress or not shape:
                 expect.append(None)
@@ -247,7 +458,15 @@ def gen_sequence(rng, ty, nops, stats, malformed=False):
                 odd = True
             else:
                 v = gen_view(rng, ty, shape, stats['views'])
-            toks += ['W', '@' + name] + v.tokens()
+            vid = 0
+            if not odd:
+                if pool.objs['view'] and rng.random() < p_re * 0.6:
+                    vid, v = rng.choice(pool.objs['view'])
+                    shape = list(v.dims)
+                    stats['shared-arg-reuses'] += 1
+                elif rng.random() < 0.4:
+                    vid = pool.add('view', v)
+            toks += ['W', '@' + name] + share(vid) + v.tokens()
             descr.append('write')
             if odd:
                 expect.append(None)
@@ -275,14 +494,34 @@ def gen_sequence(rng, ty, nops, stats, malformed=False):
                     o = rng.randint(0, n - c)
                     bshape.append(c)
                     loc.append(o)
+                vid = lid = 0
+                v = None
+                cands = [(i, w) for (i, w) in pool.objs['view'] if len(w.dims) == len(dims) and all(a <= n for a, n in zip(w.dims, dims))]
+                if cands and rng.random() < p_re:
+                    vid, v = rng.choice(cands)
+                    bshape = list(v.dims)
+                    loc = [rng.randint(0, n - c) for n, c in zip(dims, bshape)]
+                    stats['shared-arg-reuses'] += 1
                 if oob:
                     ax = rng.randrange(len(dims))
                     loc[ax] = dims[ax] - bshape[ax] + rng.randint(1, 2)
+                lcands = [(i, l) for (i, l) in pool.objs['loc'] if len(l) == len(dims)]
+                if lcands and rng.random() < p_re:
+                    lid, loc = rng.choice(lcands)
+                    loc = list(loc)
+                    stats['shared-arg-reuses'] += 1
+                oob = any(l + c > n for l, c, n in zip(loc, bshape, dims))
                 rank_bad = malformed and rng.random() < 0.2
                 if rank_bad:
                     loc = loc + [0] if rng.random() < 0.5 else loc[:-1]
-                v = gen_view(rng, ty, bshape, stats['views'])
-                toks += ['S', '@' + name] + v.tokens() + [str(len(loc))] + [str(x) for x in loc]
+                    lid = 0
+                elif not lid and rng.random() < 0.5:
+                    lid = pool.add('loc', list(loc))
+                if v is None:
+                    v = gen_view(rng, ty, bshape, stats['views'])
+                    if rng.random() < 0.4:
+                        vid = pool.add('view', v)
+                toks += ['S', '@' + name] + share(vid) + v.tokens() + share(lid) + [str(len(loc))] + [str(x) for x in loc]
                 descr.append('writeslice')
                 if rank_bad:
                     expect.append(None)       # error / no-op / whole-dataset write: model-vs-code only
@@ -309,18 +548,34 @@ def gen_sequence(rng, ty, nops, stats, malformed=False):
         elif r < 0.86:                                          # ---- Load
             if p in spec.ds and rng.random() < 0.75:
                 dims, elems = spec.ds[p]
-                sel = []
-                for n in dims:
-                    k = rng.random()
-                    if k < 0.3:
-                        sel.append(None)
-                    else:
-                        a = rng.randint(0, n + 1)
-                        b = rng.randint(0, n + 3)
-                        sel.append([a, b, rng.randint(1, 4)])
+                sel, eids = [], []
+                sid = 0
+                scands = [(i, w) for (i, w) in pool.objs['sel'] if len(w[0]) == len(dims)]
+                if scands and rng.random() < p_re * 0.6:
+                    sid, (sel, eids) = rng.choice(scands)
+                    sel, eids = list(sel), list(eids)
+                    stats['shared-arg-reuses'] += 1
+                else:
+                    for n in dims:
+                        k = rng.random()
+                        if k < 0.3:
+                            sel.append(None)
+                            eids.append(0)
+                        elif pool.objs['entry'] and rng.random() < p_re:
+                            eid, e = rng.choice(pool.objs['entry'])
+                            sel.append(list(e))
+                            eids.append(eid)
+                            stats['shared-arg-reuses'] += 1
+                        else:
+                            a = rng.randint(0, n + 1)
+                            b = rng.randint(0, 9) if reuse else rng.randint(0, n + 3)
+                            e = [a, b, rng.randint(1, 4)]
+                            sel.append(e)
+                            eids.append(pool.add('entry', list(e)) if rng.random() < 0.6 else 0)
                 bad = None
                 if malformed and rng.random() < 0.3:
                     bad = rng.choice(['step0', 'long', 'short', 'shortentry'])
+                    sid, eids = 0, [0] * (len(sel) + 1)
                     if bad == 'step0':
                         sel[rng.randrange(len(sel))] = [0, 2, 0]
                     elif bad == 'long':
@@ -329,14 +584,16 @@ def gen_sequence(rng, ty, nops, stats, malformed=False):
                         sel = sel[:-1]
                     else:
                         sel[rng.randrange(len(sel))] = 'X'
-                toks += ['LS', '@' + name, str(len(sel))]
-                for s in sel:
+                elif not sid and rng.random() < 0.4:
+                    sid = pool.add('sel', (list(sel), list(eids)))
+                toks += ['LS', '@' + name] + share(sid) + [str(len(sel))]
+                for s, eid in zip(sel, eids):
                     if s is None:
                         toks.append('N')
                     elif s == 'X':
                         toks += ['X', '2', '0', '1']
                     else:
-                        toks += ['T'] + [str(x) for x in s]
+                        toks += share(eid) + ['T'] + [str(x) for x in s]
                 descr.append('load-sel')
                 if bad:
                     expect.append(None)
@@ -432,17 +689,22 @@ def main():
         metas.append(('mh', sel, dims))
     # ---- operation sequences
     stats = {'views': {}, 'create-existing': 0, 'writeslice-inbounds': 0, 'writeslice-outofbounds': 0, 'load-allnil': 0,
-             'load-sel': 0, 'load-sel-stop-beyond': 0, 'load-sel-inexact-step': 0, 'load-whole': 0, 'tainted': 0}
+             'load-sel': 0, 'load-sel-stop-beyond': 0, 'load-sel-inexact-step': 0, 'load-whole': 0, 'tainted': 0,
+             'shared-arg-reuses': 0, 'reuse-sequences': 0}
     nseq = 25 if quick else 700
     for ty in TYPES:
         for k in range(nseq):
             malformed = k % 5 == 4
-            line, expect, spec, descr = gen_sequence(rng, ty, rng.randint(4, 14), stats, malformed)
+            reuse = k % 5 in (1, 3)
+            stats['reuse-sequences'] += reuse
+            line, expect, spec, descr = gen_sequence(rng, ty, rng.randint(4, 14), stats, malformed, reuse)
             lines.append(line)
             metas.append(('seq', ty, expect, spec, descr, malformed))
     impl = run_lines(bin_path('h5ops'), lines, env=GOENV)
     model = run_model(lines)
     n_ops = 0
+    n_argmod = 0
+    n_calls = 0
     for i, (meta, li, lm) in enumerate(zip(metas, impl, model)):
         kind = meta[0]
         agree = li == lm
@@ -486,14 +748,23 @@ def main():
         # ---- sequences
         _, ty, expect, spec, descr, malformed = meta
         c.count(lines[i], nontrivial=any(d in ('load-sel', 'writeslice') for d in descr))
+        li, _, notes = li.partition(' ## ')
+        agree = li == lm
         if not agree:
             c.corr_broken.append({'case_line': lines[i], 'impl': li[:2000], 'model': lm[:2000]})
-        if li.startswith('CRASH') or '##' in li:
-            c.violation('seq_%d.json' % i, {'kind': 'crash or Unroll mismatch in the harness', 'case_line': lines[i], 'impl': li})
+        if 'ARGUMENT-MODIFIED' in notes:
+            n_argmod += 1
+            c.violation('argument_modified_%d.json' % i,
+                        {'kind': 'a call modified its arguments (snapshot of every []int / [][]int argument and of the source array before/after the call)',
+                         'elem_type': ty, 'modified': [x for x in notes.split(' ; ') if x.startswith('ARGUMENT-MODIFIED')][:6],
+                         'case_line': lines[i], 'implementation_line': li})
+        if li.startswith('CRASH') or 'UNROLL-MISMATCH' in notes:
+            c.violation('seq_%d.json' % i, {'kind': 'crash or Unroll mismatch in the harness', 'case_line': lines[i], 'impl': li, 'notes': notes})
             continue
         res, _, dump = li.partition(' || ')
         results = res.split(' | ')
         n_ops += len(results)
+        n_calls += sum(1 for d in descr if d in ('create', 'write', 'writeslice', 'writeslice-missing', 'load', 'load-sel'))
         tainted = getattr(spec, 'tainted', False)
         bad = None
         if not tainted:
@@ -516,6 +787,8 @@ def main():
             c.violation('oracle_seq_%d.json' % i, dict(kind='io-oracle', elem_type=ty, case_line=lines[i], implementation_line=li, **bad), key=key)
         if i % 41 == 0:
             c.sample({'type': ty, 'ops': descr, 'result_head': li[:160]})
+    # ---- large blocks (judged by the Python abstract store only)
+    big_info = large_blocks(c, rng, quick)
     # ---- coqchk (thorough)
     chk = None
     if not quick and not c.proof_broken:
@@ -544,10 +817,16 @@ def main():
                      'stepped / column / single element, each compared op-by-op and on the final file contents with the extracted IoOps model, '
                      'and with an independent Python specification (loaded == in-memory slice; WriteSlice frame+effect; create-existing no-op); '
                      'every 5th sequence is a malformed stream (odd names, step 0, wrong ranks, compress) compared model-vs-code only; '
+                     'two sequences in five start with 2-3 datasets of one rank and different extents and then RE-USE the same selection / '
+                     'selection-entry / shape / loc / source-array objects across calls (SHARE ids), and every call is bracketed in the harness by a '
+                     'snapshot of all its arguments (ARGUMENT-MODIFIED = violation); a large-blocks stream (element counts around 2^16, 2^20, 2^22, '
+                     'stratified below/above the power of two x contiguous/strided source, 1-3 dims, odd first extents) is judged by the Python '
+                     'abstract store through SHA-256 digests; '
                      'non-trivial = sequence contains a Load with selection or a WriteSlice / box point with start < min(stop,n)')
     c.finish(extra_cov={'exhaustive': True, 'exhaustive_scope': 'sliceSize/makeHyperslab box only; sequences are sampled',
                         'sequence_ops': n_ops, 'op_mix': {k: v for k, v in stats.items() if k != 'views'}, 'source_views': stats['views'],
-                        'lock_graph': lock_info, 'concurrency_testing': conc, 'coqchk': chk},
+                        'lock_graph': lock_info, 'concurrency_testing': conc, 'coqchk': chk, 'large_blocks': big_info,
+                        'argument_snapshot_oracle': {'calls_bracketed': n_calls, 'argument_modified_reports': n_argmod}},
              assumptions=['libhdf5 + gonum binding replaced by harness/fakehdf5 (README.md there states the modelled hyperslab / transfer semantics); '
                           'the claim is about the Go I/O layer against that documented semantics',
                           'Unroll() of any source view is its row-major element list (property C02); the harness cross-checks it per case',
@@ -556,6 +835,59 @@ def main():
                           'noted, not flagged: Load/WriteSlice drop the error of Read/WriteSubset (an out-of-extent WriteSlice returns nil and writes nothing); '
                           'Create ignores fillValue (zero fill); Create(compress=true) fails after creating the intermediate groups',
                           'concurrency run (thorough) is testing: 16 goroutines, -race, fake overlap detector'])
+
+
+def large_blocks(c, rng, quick):
+    """A few LARGE blocks per run (element counts around 2^16, 2^20, 2^22; 1-3 dims, odd first extents;
+    contiguous / gapped / stepped source views): WriteSlice into a larger dataset, Load whole and with a
+    selection, Write.  Judged by the abstract store computed here (Python, array module) through SHA-256
+    digests of the raw element bytes; the extracted Coq model is NOT run on these (its list-based
+    data transfer is quadratic in the element count)."""
+    t0 = time.time()
+    stats = {'kinds': {}, 'element_counts': []}
+    strata = ['above-strided', None, 'below-strided', 'above-contiguous']
+    plan = [(1 << 22, 'above-strided'), (1 << 22, None), (1 << 20, 'above-strided'), (1 << 20, 'below-strided'),
+            (1 << 16, 'above-strided'), (1 << 16, None)] if quick else \
+        [(1 << 22, strata[k % 4]) for k in range(8)] + [(1 << 20, strata[k % 4]) for k in range(8)] + \
+        [(1 << 16, strata[k % 4]) for k in range(12)] + [((1 << 22) + (1 << 20), 'above-strided')]
+    cases = []
+    for n0, stratum in plan:
+        ty = rng.choice(['float64', 'float32', 'int32', 'int64'] if n0 < (1 << 22) else ['float64', 'float32', 'int32'])
+        cases.append(gen_big_case(rng, ty, n0, stats, stratum))
+    impl = run_lines(bin_path('h5ops'), [x[0] for x in cases], env=GOENV, timeout=1800)
+    bad = 0
+    for i, ((line, expect, dump, info), li) in enumerate(zip(cases, impl)):
+        c.count(('big', line), nontrivial=True)
+        li, _, notes = li.partition(' ## ')
+        res, _, dmp = li.partition(' || ')
+        results = res.split(' | ')
+        fail = None
+        if li.startswith('CRASH') or notes:
+            fail = {'notes': notes or li}
+        else:
+            for j, (e, g) in enumerate(zip(expect, results)):
+                if e != g:
+                    fail = {'op_index': j, 'expected_by_property': e, 'implementation': g}
+                    break
+            if fail is None and len(results) != len(expect):
+                fail = {'op_index': 'count', 'implementation': res[:300]}
+            got = set(dmp.split(' ', 2)[2].split(' ; ')) if dmp.startswith('FILE') else set()
+            if got != dump:
+                w = sorted(dump - got)
+                g = sorted(got - dump)
+                rows = None
+                if len(w) == 1 and len(g) == 1:       # same dataset: name the indices of the first axis that differ
+                    a, b = w[0].split(' R'), g[0].split(' R')
+                    rows = [k - 1 for k in range(1, min(len(a), len(b))) if a[k] != b[k]]
+                fail = dict(fail or {'op_index': 'final contents'}, final_contents_expected=[x[:160] for x in w],
+                            final_contents_implementation=[x[:160] for x in g], first_axis_indices_that_differ=rows)
+        if fail is not None:
+            bad += 1
+            c.violation('large_block_%d.json' % i, dict(kind='large-block oracle (abstract store in Python, SHA-256 digests of element bytes)',
+                                                       case_line=line, case=info, **fail))
+    return {'cases': len(cases), 'element_counts': stats['element_counts'], 'source_views': stats['kinds'], 'failed': bad,
+            'judged_by': 'abstract store in Python only (digests of raw element bytes); the extracted Coq model is not run at these sizes',
+            'wall_s': round(time.time() - t0, 1)}
 
 
 def lock_failure_search(c):
